@@ -165,7 +165,22 @@ def task_update_lemma(n, m, tier, seed):
     for i in range(m):
         sS = sS + q[i] * wv[i] * wv[i]
     prove_valid(part, f"{tag} (E) w'S w == |L'H'w|^2 + sum q_i w_i^2 (identity)", quad(wv, S) == sS, [], tmo)
-    part.sample({"lemma": "update", "n": n, "m": m, "chain": "A Joseph identity; B X symmetric, XSX = X; C KSK' = PH'K'; D sum of squares; E S positive definite"})
+    # (F) "never exceeds the prior": v'(P - P')v = (H P v)' X (H P v) (identity, P symmetric, P' = P - P H' X H P),
+    #     w'X w = (X w)' S (X w) from S X = I (solver with the hypotheses for m <= 2; substitution form for m = 3),
+    #     and (X w)' S (X w) is the sum of squares of (E).
+    Pp = pyh.zsub(P, mm(P, mm(tr(H), mm(Xs, mm(H, P)))))
+    hpv = mm(H, mm(P, [[x] for x in v]))
+    prove_valid(part, f"{tag} (F1) v'(P-P')v == (HPv)' X (HPv) for P' = P - P H' X H P", quad(v, pyh.zsub(P, Pp)) == quad([r[0] for r in hpv], Xs), [], tmo)
+    Xw = mm(X, [[x] for x in wv])
+    if m <= 2:
+        prove_valid(part, f"{tag} (F2) w'X w == (X w)' S (X w) under X S = I = S X (m={m})", quad(wv, X) == quad([r[0] for r in Xw], Ss), ax, tmo)
+    else:
+        # (X w)' S (X w) = w' X' (S X) w ; with S X replaced by I this is w' X' w = w' X w
+        lhsF = mm(tr([[x] for x in wv]), mm(tr(X), mm(mm(Ss, X), [[x] for x in wv])))[0][0]
+        prove_valid(part, f"{tag} (F2a) (X w)' S (X w) == w' X' (S X) w (associativity, m={m})", quad([r[0] for r in Xw], Ss) == lhsF, [], tmo)
+        rhsF = mm(tr([[x] for x in wv]), mm(tr(X), mm(I_m, [[x] for x in wv])))[0][0]
+        prove_valid(part, f"{tag} (F2b) w' X' I w == w' X w (m={m})", rhsF == quad(wv, X), [], tmo)
+    part.sample({"lemma": "update", "n": n, "m": m, "chain": "A Joseph identity; B X symmetric, XSX = X; C KSK' = PH'K'; D sum of squares; E S positive definite; F posterior <= prior"})
     return part.d
 
 
